@@ -1,9 +1,9 @@
 SPECIFICATION Spec
 CONSTANTS
   MaxSteps = 4
-  Times = {0, 40, 100, 130}
+  Times = {0, 40, 130}
   Texts = {1, 2}
-  MaxCues = 1
+  MaxCues = 2
 INVARIANTS TypeOK WrittenOK MemFromOpen
 PROPERTIES WriteFaithful FailedWriteBlank Reconvert CliTouchesOnlyOutput
 CHECK_DEADLOCK FALSE
